@@ -54,6 +54,12 @@ CHECKS = {
  "C13": dict(engine=E3, technique="exhaustive enumeration of schemas x decoded value sets; full Equals matrix (all ordered pairs, all triples) computed by the generated code and checked against the equivalence laws and encoded equality",
    text="Per root type: the first 8 (thorough 12) valid documents plus every single-leaf variation of the richest one; the generated Equals is evaluated on all ordered pairs (one driver request per case returns the matrix and the std encodings); reflexivity, symmetry, transitivity (all triples), equal encodings => Equals, Equals => equal encodings modulo absent/null/empty collections, no panics; two Go configurations (equal+json marshaller, equal only).",
    note="Values whose decoding fails are skipped and counted; a difference the decoder itself loses demands nothing.", ref="§6 C13"),
+ "C09": dict(engine=E3, technique="exhaustive enumeration of schemas x builder options x argument alphabets x option sequences (pairs; triples in thorough); generated Go and Python builders executed; expected object derived from the real builder IR",
+   text="For every struct-rooted schema of grammar G (plain and with one veneer rule applied: append, index, struct-fields-as-options/arguments, disjunction-as-options, unfold-boolean) the builder IR is taken from the real pipeline; every option is called with every value of its argument's alphabet (valid, constraint-violating, failing nested builders built through the nested builder's own options), plus all ordered pairs of options (triples in thorough); the built object must differ from the default object exactly at the option's targets, constants must be present, invalid arguments must be reported (Go Build(), Python option call) and valid ones must not fail.",
+   note="Absent/null/empty collections compare equal; intermediate objects created by nil-guards must equal their default constructor; units that do not compile are blocked_by=C02; builders with constructor arguments and combinations of veneer rules are not covered.", ref="§6 C09"),
+ "C14": dict(engine=E3, technique="exhaustive enumeration of schemas x decoded values; generated converter executed, its output compiled in a second build and executed, rebuilt object compared with the input",
+   text="Stage 1 calls the generated converter on the first <=10 valid documents of every struct-rooted schema (plain and veneered); stage 2 writes every returned expression into generated Go (one package per unit, per expression when a unit fails), compiles it with the toolchain and runs Build(); the expression must parse as a call chain over the builder API, compile, and rebuild every member in which the input differs from the default object; each option occurs at most once.",
+   note="cog.Dump, which the Go runtime jenny never emits (a C02 finding), is supplied from testdata/generated/cog/runtime.go; members the input does not hold are not compared.", ref="§6 C14"),
 }
 
 NOT_YET = "check not built yet in this session (planned, see DESIGN.md §6); not claimed until it runs clean on the unchanged tree"
